@@ -20,7 +20,7 @@
    that interprets the tables and is compared with the implementation on every
    run) hold for ALL configurations, terminal dictionaries and path oracles. *)
 From Coq Require Import String Ascii List ZArith Bool.
-From V Require Import Model.CliTypes Gen.CliTable Model.Cli Proofs.Cli Proofs.CliTables.
+From V Require Import Model.CliTypes Gen.CliTable Model.Cli Proofs.Cli Proofs.CliTables Proofs.CliExtra.
 Import ListNotations.
 Local Open Scope string_scope.
 Local Open Scope list_scope.
@@ -284,3 +284,79 @@ Example run_equiv_ex :
   end.
 Proof. vm_compute. reflexivity. Qed.
 Print Assumptions run_equiv_ex.
+
+(* ------------------------------------------------ round 7 additions *)
+
+(* A section whose ONLY keys are unknown / mistyped options raises the
+   TypeError naming that section -- whatever the terminal dictionary, the
+   function and the rest of the file: the rejection does not depend on a
+   documented option of the same section having been recognised
+   ([only_unknown tbl sec kvs]: kvs is non-empty and no key of it is in the
+   table of sec). *)
+Theorem section_with_only_unknown_keys_rejected : forall c t fn sec,
+  In sec section_order ->
+  only_unknown parser_table sec (cfg_section c sec) ->
+  parse_section parser_table parser_defaults term_overrides rejecting_sections c t fn sec
+  = Err (ETypeError sec).
+Proof. exact section_only_unknown_i. Qed.
+Print Assumptions section_with_only_unknown_keys_rejected.
+
+(* ... and this is the outcome of the whole parse when the other sections are
+   empty (the [files] part being well-formed). *)
+Theorem lone_unknown_section_rejected : forall ap c t sec fs,
+  In sec section_order ->
+  only_unknown parser_table sec (cfg_section c sec) ->
+  (forall s, In s section_order -> s <> sec -> cfg_section c s = []) ->
+  t_extra t = false ->
+  parse_files rejecting_sections files_keys files_defaults ap c t = Ok fs ->
+  parse ap c t = Err (ETypeError sec).
+Proof. exact lone_unknown_section_rejected_i. Qed.
+Print Assumptions lone_unknown_section_rejected.
+
+(* Non-vacuity, and the same for [files]: for EVERY section of the regenerated
+   tables a configuration holding nothing but one unknown option in that
+   section is rejected with the TypeError of that section (finite: 7 sections
+   on the pinned tree; decided by vm_compute on the regenerated tables). *)
+Theorem lone_unknown_key_rejected_in_every_section : forall sec,
+  In sec ("files" :: section_order) ->
+  parse (fun s => s) [(sec, [("another_c18", "1")])] term_plain = Err (ETypeError sec).
+Proof. exact lone_unknown_every_section_P. Qed.
+Print Assumptions lone_unknown_key_rejected_in_every_section.
+
+Example section_with_only_unknown_keys_rejected_ex :
+  only_unknown parser_table "solver_opts" [("maxiter", "1"); ("tolerance", "1e-5")] /\
+  parse (fun s => s) [("gridding_opts", [("min_width", "100")])] term_plain
+  = Err (ETypeError "gridding_opts") /\
+  parse (fun s => s) [("layered", [("methods", "prism")])] term_plain
+  = Err (ETypeError "layered").
+Proof.
+  split; [split; [discriminate|]|split; vm_compute; reflexivity].
+  intros k v [H|[H|[]]]; injection H as <- _; vm_compute; reflexivity.
+Qed.
+Print Assumptions section_with_only_unknown_keys_rejected_ex.
+
+(* The API calls of a run do not depend on the NAMES -- hence on the formats
+   .h5 / .npz / .json -- of the survey, model, simulation and output files: two
+   parse results that agree on everything but file names (the same files being
+   present) issue the same calls up to the file-name arguments.  What the API
+   then does with the objects it loads from a file of each format is outside
+   this model (opaque results of io.load); it is compared end to end for every
+   format on every run (py/props/c18.py, `format` stream). *)
+Theorem run_calls_independent_of_file_format : forall o1 o2 files_ok sim_layered,
+  same_but_file_names o1 o2 ->
+  map strip_file (run o1 files_ok sim_layered) = map strip_file (run o2 files_ok sim_layered).
+Proof. exact run_format_independent_i. Qed.
+Print Assumptions run_calls_independent_of_file_format.
+
+Example run_calls_independent_of_file_format_ex :
+  match parse (fun s => s) [("files", [("survey", "s.npz"); ("model", "m.json")]);
+                            ("simulation", [("gridding", "frequency")])] term_plain,
+        parse (fun s => s) [("files", [("survey", "s.h5"); ("model", "m.h5")]);
+                            ("simulation", [("gridding", "frequency")])] term_plain with
+  | Ok o1, Ok o2 => run o1 true false <> run o2 true false /\
+                    map strip_file (run o1 true false) = map strip_file (run o2 true false) /\
+                    In (CLoadSurvey "./s.npz") (run o1 true false)
+  | _, _ => False
+  end.
+Proof. vm_compute. split; [discriminate|split; [reflexivity|tauto]]. Qed.
+Print Assumptions run_calls_independent_of_file_format_ex.
